@@ -55,10 +55,14 @@ def impl_decisions(value, k, names=None):
     e.set_rules(policy.Rules.from_dict({'the_rule': value}), use_conf=False)
     out = []
     names = names or ['r%d' % i for i in range(k)]
+    # ONE target object and ONE credentials object for all assignments, updated in place: a decision depends on what
+    # the objects hold when it is taken
+    target, creds = {}, {'roles': []}
     for m in range(2 ** k):
         roles = [names[i] for i in range(k) if (m >> i) & 1]
+        creds['roles'][:] = roles
         try:
-            out.append(bool(e.enforce('the_rule', {}, {'roles': roles})))
+            out.append(bool(e.enforce('the_rule', target, creds)))
         except Exception as ex:   # noqa
             out.append('EXC ' + type(ex).__name__)
     return out
